@@ -76,6 +76,12 @@ def pp(t, d=0):
     if k == 'sum':
         v = 'k%d' % d
         return '(∑ %s : Fin n, %s)' % (v, pp(t[1](('ix', v)), d + 1))
+    if k == 'abs':
+        return '|%s|' % pp(t[1], d)
+    if k == 'aidx':                 # index-valued abstract call, e.g. argmax
+        return '(%s %s)' % (t[1], ' '.join(t[2]))
+    if k == 'acall':                # abstract (uninterpreted) library call applied to named argument definitions, then indexed
+        return '%s %s %s' % (t[1], ' '.join(t[2]), ' '.join(pp(a, d) for a in t[3]))
     if k == 'canon':
         v = 'k%d' % d
         return 'canon (fun %s : Fin n => %s) %s' % (v, pp(t[1](('ix', v)), d + 1), pp(t[2], d))
@@ -236,6 +242,8 @@ def const_term(c):
 
 def as_val(x):
     if isinstance(x, Val):
+        if x.shape == 'I':
+            raise OutOfSubset('index value (np.argmax) used as a number')
         return x
     if isinstance(x, Const):
         return S(const_term(x))
@@ -391,6 +399,54 @@ class Extractor:
         self.repo = repo
         self.modules = {}
         self.depth = 0
+        self.ctx = None            # per target: {'name', 'params': [(decl, name)], 'aux': [(lean name, text, shape)], 'ncall': int}
+
+    def arg_def(self, call_no, arg_no, v, what):
+        """emit `<target>_call<k>_arg<j>` := the argument of an abstract call; returns the Lean application string"""
+        v = as_val(v)
+        ctx = self.ctx
+        lname = '%s_call%d_arg%d' % (ctx['name'], call_no, arg_no)
+        if v.shape == 'S':
+            raise OutOfSubset('scalar argument of the abstract call %s' % what)
+        if v.shape == 'V':
+            text, binder = pp(fin(v.f(('ix', 'i')), 'argument of ' + what)), 'fun i => '
+        else:
+            text, binder = pp(fin(v.f(('ix', 'i'), ('ix', 'j')), 'argument of ' + what)), 'fun i j => '
+        abs_ps = abstract_used(text)
+        decl = ' '.join(['(%s : %s)' % p for p in abs_ps] + [d for d, _ in ctx['params']])
+        lean = 'noncomputable def %s {n : ℕ} %s : %s :=\n  %s%s\n' % (lname, decl, LEAN_TYPES[v.shape], binder, text)
+        ctx['aux'].append((lname, lean, v.shape))
+        return '(%s)' % ' '.join([lname] + [nm for nm, _ in abs_ps] + [nm for _, nm in ctx['params']])
+
+    def abstract_call(self, fn, e, env):
+        if e.keywords:
+            raise OutOfSubset('keyword arguments in the abstract call %s' % ast.unparse(e)[:60])
+        ctx = self.ctx
+        if fn in ABSTRACT_EIG:
+            if len(e.args) != 1:
+                raise OutOfSubset('arguments of %s' % fn)
+            a = as_val(self.ev(e.args[0], env))
+            if a.shape != 'M':
+                raise OutOfSubset('%s of a non-matrix' % fn)
+            k = ctx['ncall']; ctx['ncall'] += 1
+            s0 = self.arg_def(k, 0, a, fn)
+            ctx['abstract_calls'].append('%s(%s) -> eigvals / eigvecs (real parts only; complex results are dropped)' % (fn, ast.unparse(e.args[0])[:40]))
+            return PyTuple([Val('V', lambda i: ('acall', 'eigvals', [s0], [i])), Val('M', lambda i, j: ('acall', 'eigvecs', [s0], [i, j]))])
+        lf, shapes, res = ABSTRACT[fn]
+        if len(e.args) != len(shapes):
+            raise OutOfSubset('arguments of %s' % fn)
+        vals = [as_val(self.ev(a, env)) for a in e.args]
+        for v, sh in zip(vals, shapes):
+            if v.shape != sh:
+                raise OutOfSubset('%s: argument of shape %s where %s is expected' % (fn, v.shape, sh))
+        k = ctx['ncall']; ctx['ncall'] += 1
+        strs = [self.arg_def(k, j, v, fn) for j, v in enumerate(vals)]
+        ctx['abstract_calls'].append('%s(%s) -> abstract `%s`' % (fn, ', '.join(ast.unparse(a)[:30] for a in e.args), lf))
+        if res == 'V':
+            return Val('V', lambda i: ('acall', lf, strs, [i]))
+        if res == 'M':
+            return Val('M', lambda i, j: ('acall', lf, strs, [i, j]))
+        return Val('I', lambda: ('aidx', lf, strs))
 
     # -- source access ---------------------------------------------------------------------------------------------
     def module(self, rel):
@@ -492,6 +548,22 @@ class Extractor:
             return ewise2(table[op], a, b)
         raise OutOfSubset('comparison %s' % ast.unparse(e))
 
+    def ev_Subscript(self, e, env):
+        x = self.ev(e.value, env)
+        sl = e.slice
+        full = lambda s: isinstance(s, ast.Slice) and s.lower is None and s.upper is None and s.step is None
+        if isinstance(x, Val) and x.shape == 'M' and isinstance(sl, ast.Tuple) and len(sl.elts) == 2:
+            a, b = sl.elts
+            if full(a) and not isinstance(b, ast.Slice):
+                ix = self.ev(b, env)
+                if isinstance(ix, Val) and ix.shape == 'I':
+                    return Val('V', lambda k: x.f(k, ix.f()))
+            if full(b) and not isinstance(a, ast.Slice):
+                ix = self.ev(a, env)
+                if isinstance(ix, Val) and ix.shape == 'I':
+                    return Val('V', lambda k: x.f(ix.f(), k))
+        raise OutOfSubset('expression Subscript: %s' % ast.unparse(e))
+
     def kw(self, call, env, allowed):
         out = {}
         for k in call.keywords:
@@ -527,8 +599,10 @@ class Extractor:
             return np_sum(self.ev(args[0], env), self.axis_of(e, env))
         if fn == 'np.diag' and len(args) == 1 and not e.keywords:
             x = as_val(self.ev(args[0], env))
+            if x.shape == 'V':
+                return Val('M', lambda i, j: ('ite', ('ixeq', i, j), fin(x.f(i), 'np.diag'), ZERO))
             if x.shape != 'M':
-                raise OutOfSubset('np.diag of a non-matrix')
+                raise OutOfSubset('np.diag of a scalar')
             return Val('V', lambda i: x.f(i, i))
         if fn == 'np.trace' and len(args) == 1 and not e.keywords:
             x = as_val(self.ev(args[0], env))
@@ -540,6 +614,24 @@ class Extractor:
             if u.shape != 'V' or v.shape != 'V':
                 raise OutOfSubset('np.outer of non-vectors')
             return Val('M', lambda i, j: arith('mul', u.f(i), v.f(j)))
+        if fn in ABSTRACT or fn in ABSTRACT_EIG:
+            return self.abstract_call(fn, e, env)
+        if fn in ('np.ones', 'np.zeros') and len(args) == 1 and not e.keywords:
+            sh = self.ev(args[0], env)
+            dims = sh.items if isinstance(sh, PyTuple) else [sh]
+            if all(isinstance(x, Val) and x.nat for x in dims) and 1 <= len(dims) <= 2:
+                c = ONE if fn == 'np.ones' else ZERO
+                return Val('V', lambda i: c) if len(dims) == 1 else Val('M', lambda i, j: c)
+            raise OutOfSubset('%s with a shape other than (n,) / (n, n)' % fn)
+        if fn == 'np.eye' and len(args) == 1 and not e.keywords:
+            x = self.ev(args[0], env)
+            if isinstance(x, Val) and x.nat:
+                return Val('M', lambda i, j: ('ite', ('ixeq', i, j), ONE, ZERO))
+            raise OutOfSubset('np.eye of something other than n')
+        if fn == 'np.abs' and len(args) == 1 and not e.keywords:
+            return ewise1(lambda t: ('abs', fin(t, 'np.abs')), self.ev(args[0], env))
+        if fn == 'np.real' and len(args) == 1 and not e.keywords:
+            return self.ev(args[0], env)                  # all values are real in the model (complex parts are dropped)
         if fn == 'np.logical_not' and len(args) == 1 and not e.keywords:
             return ewise1(logical_not, self.ev(args[0], env))
         if fn == 'np.transpose' and len(args) == 1 and not e.keywords:
@@ -663,6 +755,28 @@ class Extractor:
         if ret is None:
             raise OutOfSubset('inlined callee %s does not return a value on this path' % fn)
         return ret
+
+
+# calls that stay ABSTRACT: an uninterpreted Lean function applied to the (named, separately emitted) argument definitions.
+# Their contracts are hypotheses of the theorems that need them (assumed contract on a dependency).
+#   python callee -> (lean function, argument shapes, result shape)
+ABSTRACT = {
+    'linalg.solve': ('solve', ['M', 'V'], 'V'), 'np.linalg.solve': ('solve', ['M', 'V'], 'V'), 'scipy.linalg.solve': ('solve', ['M', 'V'], 'V'),
+    'linalg.expm': ('expm', ['M'], 'M'), 'scipy.linalg.expm': ('expm', ['M'], 'M'),
+    'mean_first_passage_time': ('mfpt', ['M'], 'M'),
+    'np.argmax': ('argmax', ['V'], 'I'),
+}
+ABSTRACT_EIG = {'linalg.eig', 'np.linalg.eig', 'scipy.linalg.eig'}       # -> (eigvals arg, eigvecs arg)
+_MT, _VT = '(Fin n → Fin n → ℝ)', '(Fin n → ℝ)'
+ABSTRACT_TYPES = [          # order of the abstract-function parameters of a generated definition
+    ('cbrt', 'ℝ → ℝ'), ('canon', '%s → Fin n → ℝ' % _VT), ('solve', '%s → %s → Fin n → ℝ' % (_MT, _VT)),
+    ('expm', '%s → Fin n → Fin n → ℝ' % _MT), ('mfpt', '%s → Fin n → Fin n → ℝ' % _MT),
+    ('eigvals', '%s → Fin n → ℝ' % _MT), ('eigvecs', '%s → Fin n → Fin n → ℝ' % _MT), ('argmax', '%s → Fin n' % _VT)]
+
+
+def abstract_used(text):
+    import re
+    return [(nm, ty) for nm, ty in ABSTRACT_TYPES if re.search(r'(?<![A-Za-z0-9_])%s(?![A-Za-z0-9_])' % nm, text)]
 
 
 # functions of the library that are inlined at their call sites (file, -)
@@ -789,6 +903,12 @@ class Body:
         if isinstance(st, ast.If):
             self.if_(st)
             return
+        if isinstance(st, ast.With) and all(isinstance(it.context_expr, ast.Call) and dotted(it.context_expr.func) == 'np.errstate'
+                                            and it.optional_vars is None for it in st.items):
+            self.report['dropped'].append('with np.errstate(...): floating-point warning control only; body taken')
+            for s2 in st.body:
+                self.stmt(s2)
+            return
         if isinstance(st, (ast.For, ast.While, ast.With, ast.Try)):
             self.poison(may_touch([st]), '%s statement (control flow outside the subset)' % type(st).__name__.lower(), st)
             return
@@ -901,6 +1021,16 @@ TARGETS = [
     (MOD, 'modularity_und', {'A': 'mat', 'gamma': 'scalar', 'kci': 'vec'}),
     (MOD, 'modularity_dir', {'A': 'mat', 'gamma': 'scalar', 'kci': 'vec'}),
 ]
+# C18: LAPACK / callee results are abstract functions (solve, mfpt, expm, eigvals/eigvecs, argmax); see ABSTRACT
+CEN = 'bct/algorithms/centrality.py'
+EFF = 'bct/algorithms/efficiency.py'
+TARGETS += [
+    (CEN, 'pagerank_centrality', {'A': 'mat', 'd': 'scalar', 'falff': ('const', None)}, None, '_uniform'),
+    (CEN, 'pagerank_centrality', {'A': 'mat', 'd': 'scalar', 'falff': 'vec'}, None, '_falff'),
+    (EFF, 'diffusion_efficiency', {'adj': 'mat'}),
+    (CEN, 'subgraph_centrality', {'CIJ': 'mat'}),
+    (CEN, 'eigenvector_centrality_und', {'CIJ': 'mat'}),
+]
 # modularity_und_sign, one definition per documented qtype (the string parameter is fixed, the if/elif chain is decided statically).
 # Kn0 / Kn1 are accumulated by a loop over modules (outside the subset): declared opaque = free vector parameters
 for _q in ('sta', 'smp', 'gja', 'pos', 'neg'):
@@ -922,21 +1052,22 @@ def extract_function(ex, rel, name, kinds, opaque=None, suffix=''):
         raise OutOfSubset('signature')
     if set(params) != set(kinds):
         raise OutOfSubset('signature changed: parameters %s, expected %s' % (params, sorted(kinds)))
-    env, lean_params = {}, []
+    env, lean_params, named = {}, [], []
     for p in params:
         k = kinds[p]
         if k == 'mat':
             env[p] = Val('M', (lambda p: lambda i, j: ('app', p, [i, j]))(p))
-            lean_params.append('(%s : Fin n → Fin n → ℝ)' % p)
+            lean_params.append('(%s : Fin n → Fin n → ℝ)' % p); named.append(p)
         elif k == 'vec':
             env[p] = Val('V', (lambda p: lambda i: ('app', p, [i]))(p))
-            lean_params.append('(%s : Fin n → ℝ)' % p)
+            lean_params.append('(%s : Fin n → ℝ)' % p); named.append(p)
         elif k == 'scalar':
             env[p] = S(('sc', p))
-            lean_params.append('(%s : ℝ)' % p)
+            lean_params.append('(%s : ℝ)' % p); named.append(p)
         else:
             env[p] = Const(k[1])
             report['dropped'].append('parameter %s fixed to the constant %r' % (p, k[1]))
+    ex.ctx = {'name': name + suffix, 'params': list(zip(lean_params, named)), 'aux': [], 'ncall': 0, 'abstract_calls': []}
     body = Body(ex, name, env, report, opaque)
     ret = body.run(nd.body)
     if ret is None:
@@ -956,14 +1087,25 @@ def extract_function(ex, rel, name, kinds, opaque=None, suffix=''):
             t = fin(v.f(('ix', 'i'), ('ix', 'j')), 'returned value')
             text, binder = pp(t), 'fun i j => '
         ps = list(lean_params) + ['(%s : %s)' % (nm, 'Fin n → ℝ' if (opaque or {})[nm] == 'vec' else 'ℝ') for nm in body.opaque_used]
-        if 'canon (' in text:
-            ps = ['(canon : (Fin n → ℝ) → Fin n → ℝ)'] + ps
-        if 'cbrt (' in text:
-            ps = ['(cbrt : ℝ → ℝ)'] + ps
+        ps = ['(%s : %s)' % p for p in abstract_used(text)] + ps
         lean = 'noncomputable def %s {n : ℕ} %s : %s :=\n  %s%s\n' % (lname, ' '.join(ps), LEAN_TYPES[v.shape], binder, text)
         defs.append((lname, lean))
         report['defs'].append({'name': lname, 'shape': v.shape, 'params': ps, 'chars': len(text)})
-    return defs, report
+    # argument definitions of abstract calls: keep those that the returned value (transitively) mentions
+    keep, texts = [], [t for _, t in defs]
+    changed = True
+    while changed:
+        changed = False
+        for a in ex.ctx['aux']:
+            if a not in keep and any(a[0] in t for t in texts):
+                keep.append(a); texts.append(a[1]); changed = True
+    aux = [a for a in ex.ctx['aux'] if a in keep]
+    report['abstract_calls'] = ex.ctx['abstract_calls']
+    if ex.ctx['abstract_calls']:
+        report['dropped'].append('ABSTRACT calls (uninterpreted; contracts are hypotheses of the theorems): ' + '; '.join(ex.ctx['abstract_calls']))
+    for lname, lean, shape in aux:
+        report['defs'].append({'name': lname, 'shape': shape, 'params': [], 'chars': len(lean), 'aux': True})
+    return [(a[0], a[1]) for a in aux] + defs, report
 
 
 HEADER = """/-
